@@ -142,6 +142,12 @@ pub struct Scenario {
     /// record the in-ram metadata view (hook H1) at every scheduler step
     #[serde(default)]
     pub sample_ram: bool,
+    /// C14: structured malformations (field, class) applied to the top image
+    #[serde(default)]
+    pub mutations: Vec<(String, String)>,
+    /// C14: the spec's verdict whether open must refuse this image
+    #[serde(default)]
+    pub must_refuse: bool,
     /// C09: only the image structure is of interest (huge virtual sizes):
     /// the flat model gets no guest blocks
     #[serde(default)]
@@ -469,7 +475,14 @@ impl Runner {
             } else {
                 None
             };
-            let (b, t, g) = img_bytes(src, bs, backing);
+            let (mut b, t, g) = img_bytes(src, bs, backing);
+            if i == 0 {
+                for (f, c) in sc.mutations.iter() {
+                    if b.len() >= 72 && parse_header(&b).is_some() {
+                        crate::mutate::apply(&mut b, &g, f, c);
+                    }
+                }
+            }
             files.push(b);
             truths.push((t, g));
         }
@@ -541,6 +554,9 @@ impl Runner {
             s.push(json!({"e":"Reset","name": sc.name, "g": gj, "devs": devs, "init": toks, "btok": btok, "maxb": 0,
                 "src": match &sc.images[0] { ImageSrc::Format{..} => "format", _ => "build" },
                 "bound": sc.bound_clusters * geom.bpc(),
+                "mal": sc.mutations.iter().map(|m| json!([m.0, m.1])).collect::<Vec<_>>(),
+                "lenient": if sc.mutations.is_empty() {0} else {1},
+                "refuse": if sc.must_refuse {1} else {0},
                 "fmtfail": FORMAT_FAIL.with(|f| f.borrow_mut().take()).unwrap_or_default(),
                 "par": if sc.steps.iter().any(|o| matches!(o, Op::Par{..})) {1} else {0},
                 "kind": kinds, "comp": comp, "back": if n > 1 {1} else {0},
